@@ -6,6 +6,7 @@ import (
 	"encoding/json"
 	"fmt"
 	"regexp"
+	"sort"
 	"strings"
 
 	"ariga.io/atlas/sql/migrate"
@@ -109,6 +110,11 @@ func checkStmt(d *dfu.Dialect, stmt, q string, bad func(string, ...any)) {
 	if q != "<none>" && reSchemaStmt.MatchString(stmt) {
 		bad("statement creates, drops or alters a schema: %s", stmt)
 	}
+	if q != "<none>" && q != "" {
+		for _, n := range bareTypeRefs(stmt, quote) {
+			bad("qualifier %q requested but type %q is written bare (unquoted, unqualified) in: %s", q, n, stmt)
+		}
+	}
 	ids := idents(stmt, quote)
 	for _, id := range ids {
 		isTab, isType := tableNames[id.name], typeNames[id.name]
@@ -128,6 +134,39 @@ func checkStmt(d *dfu.Dialect, stmt, q string, bad func(string, ...any)) {
 			}
 		}
 	}
+}
+
+// bareTypeRefs returns the universe's type names that occur unquoted (hence unqualified) in the
+// statement, outside string literals and quoted identifiers, e.g. ALTER COLUMN "ea" TYPE status[].
+func bareTypeRefs(stmt string, quote byte) []string {
+	b := []byte(stmt)
+	for i := 0; i < len(b); i++ {
+		if b[i] != '\'' && b[i] != quote {
+			continue
+		}
+		c := b[i]
+		j := i + 1
+		for ; j < len(b); j++ {
+			if b[j] == c {
+				if c == '\'' && j+1 < len(b) && b[j+1] == c {
+					b[j], b[j+1] = ' ', ' '
+					j++
+					continue
+				}
+				break
+			}
+			b[j] = ' '
+		}
+		i = j
+	}
+	var out []string
+	for n := range typeNames {
+		if regexp.MustCompile(`(^|[^\w."` + "`" + `])` + regexp.QuoteMeta(n) + `($|[^\w"` + "`" + `])`).Match(b) {
+			out = append(out, n)
+		}
+	}
+	sort.Strings(out)
+	return out
 }
 
 func Eval(c Case) (problems []string, planErr string, nstmts int) {
